@@ -318,7 +318,7 @@ PAYLOADS = [([], None), ([1], None), ([1, "two", 3.5, None, True], {"a": 1}), ([
 IDS = [0, 1, 2 ** 53]
 
 
-def build_variants(t, ty, rng, thorough):
+def build_variants(t, ty, rng, thorough, cases=()):
     """valid raw messages of type t: option subsets with boundary values"""
     base = copy.deepcopy(EX[t])
     keys = ty["keys"]
@@ -364,6 +364,19 @@ def build_variants(t, ty, rng, thorough):
     for sel in subsets:
         # subscribe/register with match: keep uri compatible
         out.append(with_opts(sel, rng.choice(IDS[1:] if t in ("unsubscribed", "unregistered") else IDS), rng.choice(PAYLOADS)))
+    # every positional element in every value class the grammar accepts for it (null realms, loosely spelled URIs, ...)
+    for c in cases:
+        if c["t"] == t and c["what"] == "pos" and c["verdict"] == "accept" and c["c"] in ("null", "str_uri", "str_loose", "str_enum", "str_empty",
+                                                                                     "str_emptycomp", "str_lastempty"):
+            raw = copy.deepcopy(base)
+            if c["i"] < len(raw):
+                raw[c["i"]] = concretise(c["c"])
+                out.append(raw)
+                if c["c"] == "str_loose" and ty["pos"][c["i"] - 1] == "uri_null":
+                    for realm in ("r1", "1st.realm", "re\u00e4lm.\u20ac", "a"):
+                        r2 = copy.deepcopy(base)
+                        r2[c["i"]] = realm
+                        out.append(r2)
     if t in ("subscribe", "register"):
         for match, uris in (("wildcard", ["com.myapp..create", "com..proc", ".x.y", "com.myapp.x"]), ("prefix", ["com.myapp", "com.myapp.topic"]),
                             ("exact", ["com.myapp.topic1"])):
@@ -447,7 +460,7 @@ def run_roundtrip(inp, rng):
     for ti in range(inp["shard"], len(names), inp["nshards"]):
         t = names[ti]
         ty = types[t]
-        variants = build_variants(t, ty, rng, thorough)
+        variants = build_variants(t, ty, rng, thorough, inp["table"].get("cases") or ())
         msgs = []
         for raw in variants:
             o, m = run_parse(raw)
